@@ -498,9 +498,8 @@ def _do_replay(path, subs, pid, known_active):
         print(s.get("harness"))
         return 2
     bad = [f for f in s["fails"] if f["key"] not in known_active]
-    for f in s["fails"]:
-        if f["key"] in known_active:
-            print("KNOWN-FINDING: property=%s %s" % (pid, known_active[f["key"]]["what"]))
+    for k in sorted({f["key"] for f in s["fails"] if f["key"] in known_active}):
+        print("KNOWN-FINDING: property=%s %s" % (pid, known_active[k]["what"]))
     if bad:
         print("VIOLATION property=%s replay=%s" % (pid, path))
         return 1
